@@ -314,6 +314,12 @@ class PyvalColorizer:
 
     RE_COMPILE_SIGNATURE = signature(re.compile)
 
+    _re_keep_verbose_escapes = False
+    """
+    Whether the pattern being colorized turns the verbose mode on (C{(?x)} or C{(?x:...)}): 
+    literal spaces and C{#} then stay escaped.
+    """
+
     def _set_precedence(self, precedence:int, *node:ast.AST) -> None:
         for n in node:
             self.explicit_precedence[n] = precedence
@@ -788,6 +794,26 @@ class PyvalColorizer:
 
         self._output(')', self.GROUP_TAG, state)
 
+    @classmethod
+    def _re_has_scoped_verbose(cls, tree: Sequence[Tuple[sre_constants._NamedIntConstant, Any]]) -> bool:
+        """
+        Whether a group of the pattern turns the verbose mode on: C{(?x:...)}.
+        """
+        for op, args in tree:
+            if op == sre_constants.SUBPATTERN: #type:ignore[attr-defined]
+                if args[1] & sre_constants.SRE_FLAG_VERBOSE or cls._re_has_scoped_verbose(args[3]):
+                    return True
+            elif op == sre_constants.BRANCH: #type:ignore[attr-defined]
+                if any(cls._re_has_scoped_verbose(item) for item in args[1]):
+                    return True
+            elif op in (sre_constants.MAX_REPEAT, sre_constants.MIN_REPEAT): #type:ignore[attr-defined]
+                if cls._re_has_scoped_verbose(args[2]):
+                    return True
+            elif op in (sre_constants.ASSERT, sre_constants.ASSERT_NOT): #type:ignore[attr-defined]
+                if cls._re_has_scoped_verbose(args[1]):
+                    return True
+        return False
+
     def _colorize_ast_generic(self, pyval: ast.AST, state: _ColorizerState) -> None:
         try:
             source = astor.to_source(pyval).strip()
@@ -836,6 +862,8 @@ class PyvalColorizer:
         groups = dict([(num,name) for (name,num) in
                        pattern.groupdict.items()])
         flags: int = pattern.flags
+        self._re_keep_verbose_escapes = bool(flags & sre_constants.SRE_FLAG_VERBOSE) \
+            or self._re_has_scoped_verbose(tree.data)
         
         # Open quote. Never triple quote regex patterns string, anyway parterns that includes an '\n' caracter are displayed as regular strings.
         quote = "'"
@@ -876,6 +904,9 @@ class PyvalColorizer:
                 # Add any appropriate escaping.
                 if c in '.^$\\*+?{}[]|()\'' or (in_set and c == '-'): 
                     # inside [...] a literal '-' must stay escaped: '[a\\-z]' is not the range '[a-z]'
+                    c = '\\' + c
+                elif c in ' #' and self._re_keep_verbose_escapes:
+                    # In verbose mode a bare space is skipped and a bare '#' starts a comment.
                     c = '\\' + c
                 elif c == '\t': 
                     c = r'\t'
